@@ -74,61 +74,69 @@ HARNESSES += [
  _v('v_sum', 'reduction axis in [-4, 3]', quick=[_vc(3, KF_C15_REDUCE_AXIS=1)], thorough=[_vc(4, KF_C15_REDUCE_AXIS=1)]),
  _v('v_concatenate', 'two symbolic 2-d operands, axis in [-4, 3] (mismatching off-axis extents included)', quick=[_vc(3, KF_C15_CONCATENATE_VIEW=1)], thorough=[_vc(4, KF_C15_CONCATENATE_VIEW=1)]),
 ]
-# quick-tier trimming (measured under load): the 3 flatten queries -> 2; broadcast_transpose_sum costs 170 s / 3.4-5.3 GB
+# quick-tier trimming (measured under load): the 3 flatten queries -> 2; broadcast_transpose_sum costs 170 s / 3.4-5.3 GB (thorough only; v_broadcast_to covers the failing broadcast in quick)
 for _h in HARNESSES:
     if _h['name'] == 'v_reshape_transpose_flatten': _h['quick'] = _nd((2, 3))
-    if _h['name'] == 'v_broadcast_transpose_sum': _h['quick'] = [_vc(3)]; _h['thorough'] = [_vc(4)]; _h['mem_gb'] = 8
+    if _h['name'] == 'v_broadcast_transpose_sum': _h['quick'] = []; _h['thorough'] = [_vc(3)]; _h['mem_gb'] = 8; _h['timeout'] = 1800   # 170 s idle-ish, > 300 s under load: thorough only
 
 # ---------------------------------------------------------------------------------------------------------------------------------
+# witness_config: the input layout of the view-level harnesses depends on MAXE (number of data cells), so their witnesses are replayed under MAXE=3 whatever the query's MAXE is.
 # TEMPORARY (to be moved into known_findings.json or fixed in nmtools by the lead): counterexamples found by the solver and replayed
 # natively against the g++ build. Each region is excluded by its macro in the configs above so that the rest of the domain is proved.
 _W = lambda *v: ['0x%x' % (x & (2**64 - 1)) for x in v]
 PENDING_FINDINGS = [
  dict(id='C15-reshape-scalar-target', harness='shape_reshape', exclude_define='KF_C15_RESHAPE_SCALAR_TARGET',
-      witness_inputs=_W(4, 1, 1, 1, 1, 0, 3, 0, 7, -2), also_harnesses=['v_reshape', 'v_reshape_transpose', 'v_reshape_transpose_flatten', 'v_reshape_add', 'v_reshape_transpose_eval'],
+      witness_inputs=_W(4, 1, 1, 1, 1, 0, 3, 0, 7, -2), witness_config={},
       what='index::shape_reshape(src (1,1,1,1), dst ()) returns Nothing; NumPy accepts an empty target when the element count is 1 (result 0-d). '
            'Region: empty target and src numel == 1. (Introduced by the working-tree repair "empty target -> Nothing"; spec decision needed.)'),
- dict(id='C15-moveaxis-repeated-axis', harness='moveaxis_to_transpose_list', exclude_define='KF_C15_MOVEAXIS_REPEATED_AXIS',
+ dict(id='C15-reshape-scalar-target', harness='v_reshape', exclude_define='KF_C15_RESHAPE_SCALAR_TARGET', witness_config={'MAXE': 3},
+      witness_inputs=_W(1, 1, 0, 0, 0, 0, 0, 0, 0, 0, 0, 0, -1, 3, 7, -1, 0, 0, 0, 0), what='same defect through view::reshape(a (1,1), target ()): Nothing where NumPy gives a 0-d array'),
+ dict(id='C15-reshape-scalar-target', harness='v_reshape_transpose', exclude_define='KF_C15_RESHAPE_SCALAR_TARGET', witness_config={'MAXE': 3},
+      witness_inputs=_W(1, 1, 0, 0, 0, 0, 0, 0, 0, 0, 0, 0, 8, 6, -1, 7, 0, 0, 0, 0), what='same defect through transpose(reshape(a (1,1), ()))'),
+ dict(id='C15-reshape-scalar-target', harness='v_reshape_transpose_flatten', exclude_define='KF_C15_RESHAPE_SCALAR_TARGET', witness_config={'MAXE': 3, 'ND': 0},
+      witness_inputs=_W(1, 1, 0, 0, 0, 0, 0, 0, 0, 0, 0, 0, 8, 6, -1, 7, 0),
+      what='same defect through flatten(transpose(reshape(a (1,1), ()))); the witness only applies to the ND=0 query (thorough tier) - for ND >= 1 it is outside the domain and nothing is excluded'),
+ dict(id='C15-moveaxis-repeated-axis', harness='moveaxis_to_transpose_list', exclude_define='KF_C15_MOVEAXIS_REPEATED_AXIS', witness_config={},
       witness_inputs=_W(2, 1, 1, 1, 1, 2, 2, -2, -2, -2, 0, -4, -4, 0, -4),
       what='index::moveaxis_to_transpose(shape (1,1), source [-2,-2], destination [-2,0]) returns a value (a non-permutation order); NumPy raises "repeated axis in source/destination". '
            'Region: in-range source/destination lists of equal length with a repeated (normalized) axis.'),
- dict(id='C15-concatenate-axis', harness='shape_concatenate', exclude_define='KF_C15_CONCATENATE_AXIS',
+ dict(id='C15-concatenate-axis', harness='shape_concatenate', exclude_define='KF_C15_CONCATENATE_AXIS', witness_config={},
       witness_inputs=_W(0, 2, 2, 2, 2, 0, 4, 4, 4, 3, -1),
       what='index::shape_concatenate does not validate the axis: a negative in-range axis (NumPy: accepted, counted from the end) is treated as "no axis" '
            '(success only if the shapes are equal, and then with the shape of a alone); axis >= ndim and 0-d operands succeed when the shapes are equal (witness: (), (), axis -1 -> success; NumPy raises). '
            'Region: axis < 0 or axis >= ndim.'),
- dict(id='C15-shape-matmul-0d', harness='shape_matmul', exclude_define='KF_C15_MATMUL_0D',
+ dict(id='C15-shape-matmul-0d', harness='shape_matmul', exclude_define='KF_C15_MATMUL_0D', witness_config={},
       witness_inputs=_W(2, 1, 4, 4, 3, 0, 1, 1, 1, 1),
       what='index::shape_matmul((1,4), ()) indexes the empty shape (at(bshape,-2): NMV-HOOK index beyond the logical extent, CBMC pointer outside object bounds) and asks a bounded vector to '
            'exceed its capacity; NumPy raises for a 0-d operand. Region: either operand 0-d. Witness extracted with cbmc --trace by hand (the full run reports other properties UNKNOWN in this region) and replayed natively.'),
- dict(id='C15-view-matmul-mismatch', harness='v_matmul_transpose', exclude_define='KF_C15_MATMUL_VIEW',
+ dict(id='C15-view-matmul-mismatch', harness='v_matmul_transpose', exclude_define='KF_C15_MATMUL_VIEW', witness_config={'MAXE': 3},
       witness_inputs=_W(2, 2, 0, 0, 0, 0, 0, 0, 0, 0, 0, 3, 1, 0, 0, 0, 0, 0, 0, 0, 0, 0),
       what='view::matmul(a (2,2), b (3,1)) has a value: matmul_t\'s constructor unwraps index::shape_matmul\'s Nothing (matmul.hpp:373) and reports an indeterminate shape; NumPy raises. '
            'Region: contracted extents differ.'),
- dict(id='C15-view-transpose-axes', harness='v_transpose_axes', exclude_define='KF_C15_TRANSPOSE_AXES',
+ dict(id='C15-view-transpose-axes', harness='v_transpose_axes', exclude_define='KF_C15_TRANSPOSE_AXES', witness_config={'MAXE': 3},
       witness_inputs=_W(2, 2, 4, 4, 4, 0, 0, 0, 0, 0, 0, 0, -2, 8, 8, 1, 1),
       what='view::transpose(a (2,2), axes (0,-2)) (repeated axis) has a value; axes are never validated at run time (index::shape_transpose gathers shape[axes[i]]), out-of-range axes index '
            'outside the shape (NMV-HOOK index). NumPy raises. Region: axes that are not a permutation. (Negative axes forming a permutation are handled correctly.)'),
- dict(id='C15-view-swapaxes-axis', harness='v_swapaxes', exclude_define='KF_C15_SWAPAXES_AXIS',
+ dict(id='C15-view-swapaxes-axis', harness='v_swapaxes', exclude_define='KF_C15_SWAPAXES_AXIS', witness_config={'MAXE': 3},
       witness_inputs=_W(3, 3, 0, 0, 0, 0, 0, 0, 0, 0, 0, 2, -4, 2, 8, 1, 1),
       what='view::swapaxes(a (3,3), 2, -4): normalize_axis returns Nothing, swapaxes.hpp:31 unwraps it, std::array::at throws std::out_of_range -> terminate. Region: an axis outside [-ndim, ndim).'),
- dict(id='C15-view-expand-dims-axis', harness='v_expand_dims', exclude_define='KF_C15_EXPAND_DIMS_AXIS',
+ dict(id='C15-view-expand-dims-axis', harness='v_expand_dims', exclude_define='KF_C15_EXPAND_DIMS_AXIS', witness_config={'MAXE': 3},
       witness_inputs=_W(3, 3, 0, 0, 0, 0, 0, 0, 0, 0, 0, 3, 3, 7, 2, 2),
       what='view::expand_dims(a (3,3), axis 3): index/expand_dims.hpp:51 unwraps normalize_axis\'s Nothing; std::out_of_range -> terminate. Region: axis outside [-(ndim+1), ndim+1).'),
- dict(id='C15-view-flip-axis', harness='v_flip', exclude_define='KF_C15_FLIP_AXIS',
+ dict(id='C15-view-flip-axis', harness='v_flip', exclude_define='KF_C15_FLIP_AXIS', witness_config={'MAXE': 3},
       witness_inputs=_W(3, 2, 0, 0, 0, 0, 0, 0, 0, 0, 0, -4, 6, 2, 1, 2),
       what='view::flip(a (3,2), axis -4) has a value and indexes a bounded vector beyond its extent (NMV-HOOK index); NumPy raises AxisError. Region: axis outside [-ndim, ndim).'),
- dict(id='C15-view-reduce-axis', harness='v_sum', exclude_define='KF_C15_REDUCE_AXIS',
+ dict(id='C15-view-reduce-axis', harness='v_sum', exclude_define='KF_C15_REDUCE_AXIS', witness_config={'MAXE': 3},
       witness_inputs=_W(3, 1, 0, 0, 0, 0, 0, 0, 0, 0, 0, 2, 8, 1, 1, 1),
       what='view::sum(a (3,1), axis 2): index/reduce.hpp:31 unwraps normalize_axis\'s Nothing; std::out_of_range -> terminate. Region: reduction axis outside [-ndim, ndim). '
            'Witness extracted with cbmc --trace by hand (UNKNOWN statuses in the full run) and replayed natively.'),
- dict(id='C15-view-concatenate-mismatch', harness='v_concatenate', exclude_define='KF_C15_CONCATENATE_VIEW',
+ dict(id='C15-view-concatenate-mismatch', harness='v_concatenate', exclude_define='KF_C15_CONCATENATE_VIEW', witness_config={'MAXE': 3},
       witness_inputs=_W(1, 1, 3, 0, 0, 0, 0, 0, 0, 0, 0, 3, 3, 0, 0, 0, 0, 0, 0, 0, 0, 0, 0, 0, 0, 2, 1),
       what='view::concatenate(a (1,1), b (3,3), axis 0) has a value under NDEBUG (the only check is nmtools_cassert = assert(); without NDEBUG it aborts); negative axes are not supported either '
            '(see C15-concatenate-axis). Region: off-axis extents differ, or axis negative / out of range. Witness extracted by hand as above.'),
- dict(id='C15-view-roll-large-shift', harness='v_roll', exclude_define='KF_C15_ROLL_LARGE_SHIFT',
+ dict(id='C04-roll-shift-beyond-extent', harness='v_roll', exclude_define='KF_C15_ROLL_LARGE_SHIFT', witness_config={'MAXE': 3},
       witness_inputs=_W(2, 2, 16, 0, 0, 0, 16, 16, 16, 16, 16, -4, -1, 0, 0, 0, 0),
-      what='(belongs to C04, found here) view::roll(a (2,2), shift -4, axis -1) reads index 2 of an extent-2 axis (NMV-HOOK index) and returns a wrong element: index::roll wraps only once '
+      what='(same defect as C04-roll-shift-beyond-extent in known_findings.json, observed through a C15 harness) view::roll(a (2,2), shift -4, axis -1) reads index 2 of an extent-2 axis (NMV-HOOK index) and returns a wrong element: index::roll wraps only once '
            '(normalize_roll_index), NumPy uses shift mod n. Region: |shift| > extent of the rolled axis (correct for -n <= shift <= n).'),
 ]
 
